@@ -67,6 +67,15 @@ def arg_vectors(path, node, game, rnd):
         return [[3], [0], [23], [24], [-1], [99]]
     if leaf == "configure":
         return [[{}], [{"server_ip_address": ip, "server_password": "x"}], [{"target_ip_address": ip}], [{"c2_server_ip_address": ip}]]
+    if leaf == "ransomware_configure":
+        return [[{"server_ip_address": ip, "payload": "ENCRYPT"}], [{}]]
+    if leaf == "exfiltrate":
+        return [[{"username": "admin", "password": "admin", "target_ip_address": ip, "target_file_name": fi, "target_folder_name": fo,
+                  "exfiltration_folder_name": "loot"}], [{"username": "admin", "password": "admin", "target_ip_address": NOWHERE, "target_file_name": "nofile",
+                                                            "target_folder_name": "nofolder", "exfiltration_folder_name": "loot"}]]
+    if leaf == "terminal_command":
+        return [[{"commands": [["file_system", "create", "folder", "c2"]], "ip_address": None, "username": "admin", "password": "admin"}],
+                [{"commands": [["file_system", "create", "folder", "c2"]], "ip_address": ip, "username": "admin", "password": "wrong"}]]
     if leaf == "ping_scan":
         return [[{"target_ip_address": ip, "show": False}], [{"target_ip_address": [ip, "192.168.250.250"], "show": False}]]
     if leaf in ("port_scan", "network_service_recon"):
